@@ -247,6 +247,8 @@ func (r *Renderer) expr(e Expr, ctx int) string { return r.exprSide(e, ctx, fals
 
 func (r *Renderer) exprSide(e Expr, ctx int, right bool) string {
 	switch n := e.(type) {
+	case *Raw:
+		return n.Text
 	case *IntLit:
 		return strconv.FormatInt(n.V, 10)
 	case *FloatLit:
@@ -344,6 +346,8 @@ func (r *Renderer) stmt(b *strings.Builder, s Stmt, ind string) {
 		b.WriteString(ind + "}\n")
 	case *ExprStmt:
 		b.WriteString(ind + r.Expr(n.E) + "\n")
+	case *RawStmt:
+		b.WriteString(ind + n.Text + "\n")
 	default:
 		panic(fmt.Sprintf("render: unknown stmt %T", s))
 	}
@@ -405,3 +409,16 @@ func (r *Renderer) Render(p *Program) string {
 	r.stmts(&b, p.Stmts, "")
 	return b.String()
 }
+
+// Raw is an expression rendered verbatim (used by the defect-introducing
+// mutators of C24; never interpreted).
+type Raw struct {
+	Text string
+	T    Type
+}
+
+// RawStmt is a statement rendered verbatim.
+type RawStmt struct{ Text string }
+
+func (*Raw) exprNode()     {}
+func (*RawStmt) stmtNode() {}
